@@ -232,15 +232,15 @@ def run_defaults(case, ctx):
     dens = base.replace("[EAM-Density]\nAl :", "[EAM-Density]\nAl->Al :") if target.endswith("_fs") else base
     for opts, want in (("", (10.0, 1001, 100.0, 1001)), ("nr : 12\n", (10.0, 12, 100.0, 1001)), ("cutoff : 3.5\n", (3.5, 1001, 100.0, 1001)),
                        ("nrho : 7\n", (10.0, 1001, 100.0, 7)), ("cutoff_rho : 2.5\n", (10.0, 1001, 2.5, 1001))):
-      if target in ("DLPOLY", "DL_POLY") and want[1] % 4:
-        continue
       text = "[Tabulation]\ntarget : %s\n%s\n%s" % (target, opts, dens)
       try:
         tab = routes.read_config(text)
       except Exception as e:
         et, fn = exc_sig(e)
-        if target in ("DLPOLY", "DL_POLY") and "divisible by 4" in str(e):
+        if target in ("DLPOLY", "DL_POLY") and "divisible by 4" in str(e) and want[1] == 1001:
+          # the documented default row count is not one this target accepts: recorded as a known finding
           ctx.cls("default_nr_1001_refused_by_DL_POLY")
+          ctx.violation("defaults_exception", "target %s with nr omitted: the documented default nr = 1001 is refused (%s)" % (target, str(e)[:120]), what="defaults_exception", mech="dlpoly_default_nr_1001")
           continue
         ctx.violation("defaults_exception", "target %s opts %r: %s %s" % (target, opts, et, e), what="defaults_exception")
         continue
